@@ -382,6 +382,13 @@ impl TableLookup {
     ) -> ActionStatus {
         // Entering the endgame phase
         self.in_endgame = true;
+        #[cfg(btdht_verif)]
+        crate::verif::emit("Endgame", || {
+            vec![
+                ("node", socket.local_addr().into()),
+                ("aid", self.id_generator.action_id().verif_value().into()),
+            ]
+        });
 
         // Try to start a global message timeout for the endgame
         let timeout = timer.schedule_in(
